@@ -123,6 +123,7 @@ fn run(ctx: &mut Ctx) {
     workload::random_operands(ctx, n_rand, &mut j);
     workload::string_families(ctx, &mut j);
     workload::big_operands(ctx, &mut j);
+    workload::deep_expressions(ctx, &mut j);
     let n = ctx.tier.of(400_000, 15_000_000);
     workload::random(ctx, &pool, n, ctx.tier.of(4, 6), &mut j);
     text_route(ctx, ctx.tier.of(4_000, 40_000));
